@@ -21,11 +21,12 @@ ACL_APIS = ["Produce", "Fetch", "FetchById", "ListOffsets", "OffsetForLeaderEpoc
             "CreatePartitions", "CreateTopics", "DeleteTopics", "JoinGroup", "SyncGroup", "Heartbeat", "LeaveGroup", "OffsetCommit",
             "OffsetFetch", "DescribeGroups", "ListGroups", "DeleteGroups"]
 DEV = {
-    "C24": dict([("Handler_MetaNoAcl", "C24_"), ("Handler_AclAfterAppend", "C24_"), ("Handler_FetchAclOnRequestName", "C24_")] + [("Handler_NoAclOn" + a, "C24_") for a in ACL_APIS if a != "FetchById"]),
+    "C24": dict([("Handler_MetaNoAcl", "C24_"), ("Handler_AclAfterAppend", "C24_"), ("Handler_FetchAclOnRequestName", "C24_"), ("Handler_AclCacheNoAction", "C24_")] + [("Handler_NoAclOn" + a, "C24_") for a in ACL_APIS if a != "FetchById"]),
     "C19": {"HandlerLease_GateAfterAppend": "C19_", "HandlerLease_LeaseCheckSkipped": "C19_", "HandlerLease_StaleOwnedOnSessionReplace": "C19_",
-            "HandlerLease_LeaseErrMisindexed": "C19_"},
+            "HandlerLease_LeaseErrMisindexed": "C19_", "HandlerLease_LateAcquireAfterRelease": "C19_",
+            "HandlerLease_ReacquireUnconditional": "C19_"},
 }
-QUICK_DEVS = ["Handler_MetaNoAcl", "Handler_AclAfterAppend", "Handler_FetchAclOnRequestName", "Handler_NoAclOnProduce", "Handler_NoAclOnFetch", "Handler_NoAclOnOffsetCommit", "Handler_NoAclOnCreateTopics"]
+QUICK_DEVS = ["Handler_MetaNoAcl", "Handler_AclAfterAppend", "Handler_FetchAclOnRequestName", "Handler_AclCacheNoAction", "Handler_NoAclOnProduce", "Handler_NoAclOnFetch", "Handler_NoAclOnOffsetCommit", "Handler_NoAclOnCreateTopics"]
 TRACE_CFG = """CONSTANTS
  TopicSeq <- TwoTopics
  Known <- KnownTk
@@ -45,6 +46,10 @@ TRACE_CFG = """CONSTANTS
  DevFetchAclOnRequestName = FALSE
  DevStaleOwnedOnSessionReplace = FALSE
  DevLeaseErrMisindexed = FALSE
+ MidOn = TRUE
+ DevAclCacheNoAction = FALSE
+ DevLateAcquireAfterRelease = FALSE
+ DevReacquireUnconditional = FALSE
 INIT TInit
 NEXT TNext
 POSTCONDITION Reached
@@ -140,11 +145,14 @@ def check(ctx, prop):
     if lease:   # lease sessions: expiry, monitor, replacement (three single-partition produces, three environment steps)
         mc2 = T.model_check(ctx, d, "MC_Handler.tla", "MC_HandlerLeaseSess.cfg", coverage=not quick, timeout=2400, workers=8)
         ctx.log("session model: %d distinct states, depth %d" % (mc2.distinct, mc2.depth))
+        mc3 = T.model_check(ctx, d, "MC_Handler.tla", "MC_HandlerLeaseMid.cfg", coverage=not quick, timeout=2400, workers=8)
+        ctx.log("mid-acquisition model: %d distinct states, depth %d" % (mc3.distinct, mc3.depth))
+        mc2.distinct += mc3.distinct; mc2.generated += mc3.generated; mc2.depth = max(mc2.depth, mc3.depth); mc2.out += mc3.out
     scheds, labels = [], []
     devs = sorted(DEV[prop])
     if quick and not lease:
         rest = [x for x in devs if x not in QUICK_DEVS]
-        devs = QUICK_DEVS[:3] + rnd.sample(QUICK_DEVS[3:] + rest, 2)
+        devs = QUICK_DEVS[:4] + rnd.sample(QUICK_DEVS[4:] + rest, 2)
     for name in devs:
         h, r, auto = dev_schedule(ctx, d, name, mode)
         if h is None or not any(v.startswith(DEV[prop][name]) for v in r.violated):
@@ -155,7 +163,7 @@ def check(ctx, prop):
     r = T.tlc(ctx, d, "MC_Handler.tla", "Enum_%s.cfg" % fam, workers=4, timeout=1200, deadlock_off=True)
     if r.violated or not r.prints.get("SCHED"):
         raise Broken("enumeration config failed:\n" + r.out[-2000:])
-    enum = [h for h in r.prints["SCHED"] if h["steps"] and h["steps"][-1]["a"] == "Req"]
+    enum = [h for h in r.prints["SCHED"] if h["steps"] and h["steps"][-1]["a"] in ("Req", "ReqMid")]
     enum.sort(key=lambda h: json.dumps(h, sort_keys=True))
     if lease:
         k = 250 if quick else 2000
@@ -173,7 +181,7 @@ def check(ctx, prop):
     runs = split(rows)
     if len(runs) != len(scheds):
         raise Broken("harness recorded %d runs for %d schedules" % (len(runs), len(scheds)))
-    reqs = [r for r in rows if r["ev"] == "Req"]
+    reqs = [r for r in rows if r["ev"] in ("Req", "ReqMid")]
     vac = vacuity(prop, reqs, rows)
     consumed, viol, _ = layers.observe(ctx, DIR, "Obs_Handler.tla", "Obs_Handler.cfg", rows, timeout=3000)
     violations, first = [], set()
@@ -200,7 +208,7 @@ def check(ctx, prop):
         ctx.log("DRIFT: conformance layer rejected a trace although %s held: %s" % (prop, json.dumps(conf["first_rejection"])[:1500]))
     cov = {
         "states": mc.distinct + (mc2.distinct if mc2 else 0), "transitions": mc.generated + (mc2.generated if mc2 else 0), "depth": max(mc.depth, mc2.depth if mc2 else 0), "exhaustive": True,
-        "model_config": "MC_%s_%s.cfg" % (fam, ctx.tier) + (" + MC_HandlerLeaseSess.cfg" if mc2 else ""),
+        "model_config": "MC_%s_%s.cfg" % (fam, ctx.tier) + (" + MC_HandlerLeaseSess.cfg + MC_HandlerLeaseMid.cfg" if mc2 else ""),
         "traces_validated_against_impl": len(runs), "trace_events": len(rows),
         "evaluations": len(reqs), "distinct_nontrivial": vac["nontrivial"], "vacuity": vac,
         "rule": ("C24: evaluations = requests sent through handler.Handle and judged; non-trivial = distinct (request, permissions, auto-create, environment, store contents) cases in which at least one addressed item is NOT authorized for the principal (the property's antecedent holds)"
@@ -215,7 +223,7 @@ def check(ctx, prop):
         if mc2:
             for k, v in mc2.action_coverage().items():
                 cov["action_coverage"][k] = cov["action_coverage"].get(k, 0) + v[1]
-        need = ["Req", "SetHealth", "SetStore"] + (["ForeignAcquire", "CloseLease", "LeaseDown", "SessionExpire", "MonitorRun"] if lease else [])
+        need = ["Req", "SetHealth", "SetStore"] + (["ForeignAcquire", "CloseLease", "LeaseDown", "SessionExpire", "MonitorRun", "OldIncarnation", "ReqMid"] if lease else [])
         dead = [k for k in need if cov["action_coverage"].get(k, 0) == 0]
         if dead:
             raise Broken("vacuous model run: actions never taken: %s" % dead)
@@ -265,7 +273,7 @@ def vacuity(prop, reqs, rows=()):
                 "unauthorized_by_deny_rule": sum(1 for r in unauth if r["perms"]["deny"]),
                 "fetch_by_topic_id_unauthorized": sum(1 for r in unauth if r["mapi"] == "FetchById")}
     prod = [r for r in reqs if r["api"] == "Produce" and r["leasing"]]
-    nh = lambda it: not (it["owns1"] and it["owner1"] == "A")
+    nh = lambda it: not (it["owns1"] and it["owner1"] == "A" and not it["foreign"])
     notheld = [r for r in prod if any(nh(it) for it in r["items"])]
     mixed = [r for r in prod if any(nh(it) for it in r["items"]) and any(not nh(it) for it in r["items"])]
     kinds = {"other": sum(1 for r in prod if any(it["owner0"] == "B" for it in r["items"])),
@@ -274,7 +282,8 @@ def vacuity(prop, reqs, rows=()):
              "not_leader_replies": sum(1 for r in prod if any(it["code"] == 6 for it in r["items"]))}
     kinds["session_expiries"] = sum(1 for r in rows if r["ev"] == "SessionExpire")
     kinds["monitor_runs"] = sum(1 for r in rows if r["ev"] == "MonitorRun")
-    if not prod or not notheld or not mixed or not all(kinds.values()):
+    kinds["produces_with_step_inside_acquisition"] = sum(1 for r in rows if r["ev"] == "ReqMid")
+    if not prod or not notheld or not mixed or not all(v for k, v in kinds.items() if k != "monitor_runs"):   # monitor runs: simulation only, informational
         raise Broken("vacuous run: produce=%d notheld=%d mixed=%d kinds=%s" % (len(prod), len(notheld), len(mixed), kinds))
     return dict(kinds, nontrivial=len({case_key(r) for r in notheld}), produce_with_unheld_partition=len(notheld), mixed_held_and_not_held=len(mixed), leased_produce_requests=len(prod))
 
@@ -302,7 +311,7 @@ def self_test(ctx, prop, runs, lease):
             raise Broken("binding self-test: observation layer did not flag an ack without a held lease")
         out["observation_layer_flags_ack_without_lease"] = True
     bad = copy.deepcopy(runs[ri])
-    tgt = [r for r in bad if r["ev"] == "Req"][-1]
+    tgt = [r for r in bad if r["ev"] in ("Req", "ReqMid")][-1]
     tgt["items"][0]["code"] = 87
     reached, total, _ = layers.conform(ctx, DIR, "Trace_Handler.tla", "Trace_Handler.cfg", bad, name="selfC", cfg_text=TRACE_CFG % ("TRUE" if lease else "FALSE"))
     if reached == total:
